@@ -32,9 +32,21 @@ def _impl(tier, seed, search):
     CL = dict(SO2=(SO2, lambda: inputs.so2(g)), SE2=(SE2, lambda: inputs.se2(g, 1)), SO3=(SO3, lambda: inputs.so3(g)), SE3=(SE3, lambda: inputs.se3(g, 1)),
               Quaternion=(Quaternion, lambda: g.normal(size=4)), UnitQuaternion=(UnitQuaternion, lambda: inputs.unitq(g)),
               Twist2=(Twist2, lambda: np.r_[g.normal(size=2), g.uniform(-2, 2)]), Twist3=(Twist3, lambda: np.r_[g.normal(size=3), inputs.unit_axis(g) * g.uniform(0.1, 2.5)]))
-    def mkobj(c, m):
+    def int_member(c):
+        """a value of the class with integer entries and integer dtype (what SE3(1, 2, 3) or an integer array gives)"""
+        if c in ('SO2', 'SE2', 'SO3', 'SE3'):
+            n_ = 2 if c in ('SO2', 'SE2') else 3
+            M_ = np.eye(n_ + (1 if c in ('SE2', 'SE3') else 0), dtype=int)
+            if c in ('SE2', 'SE3'): M_[:n_, n_] = g.integers(-4, 5, size=n_)
+            return M_
+        if c in ('Quaternion',): return np.array(g.integers(-4, 5, size=4), dtype=int) + np.array([5, 0, 0, 0])
+        if c == 'UnitQuaternion': return np.array([1, 0, 0, 0], dtype=int)
+        if c == 'Twist2': return np.array([int(g.integers(-3, 4)), int(g.integers(-3, 4)), 1], dtype=int)
+        return np.array([int(g.integers(-3, 4)), int(g.integers(-3, 4)), int(g.integers(-3, 4)), 0, 0, 1], dtype=int)
+    def mkobj(c, m, int_first=False):
         cls, one = CL[c]
         vals = [one() for _ in range(m)]
+        if int_first: vals[0] = int_member(c)
         X = cls(vals[0]) if m == 1 else cls(vals)
         return X, [cls(v) for v in vals]
     def val(x):
@@ -91,64 +103,82 @@ def _impl(tier, seed, search):
                         if not same:
                             L.fail(f'binop-element:{c}:{opn}:{"1" if m == 1 else "M"}x{"1" if n_ == 1 else "M"}', f'{c} {opn} {c} lengths {m}, {n_}: element {i} is not the single-valued result on the corresponding elements', inp, observed=repr(gi)[:120], required=repr(w)[:120])
                             break
-            # power and unary / per-value methods on an m-valued object
-            X, xs = mkobj(c, m)
-            inp = dict(cls=c, m=m)
-            methods = {}
-            if c in ('SO2', 'SE2', 'SO3', 'SE3'):
-                methods = {'inv': lambda Z: Z.inv(), 'R': lambda Z: Z.R, 'det': lambda Z: Z.det(), '**2': lambda Z: Z ** 2, '**-1': lambda Z: Z ** -1,
-                           'log': lambda Z: Z.log(), 'norm': lambda Z: Z.norm(),
-                           'interp(0.3)': lambda Z: Z.interp(0.3), 'interp(0)': lambda Z: Z.interp(0), 'interp(1)': lambda Z: Z.interp(1), 'interp(0.0)': lambda Z: Z.interp(0.0)}
-                if c in ('SE2', 'SE3'): methods['t'] = lambda Z: Z.t
-                if c in ('SO3', 'SE3'): methods.update({'eul': lambda Z: Z.eul(), 'rpy': lambda Z: Z.rpy(), 'angvec': lambda Z: Z.angvec(),
-                                                        'rpy(xyz)': lambda Z: Z.rpy(order='xyz'), 'rpy(yxz)': lambda Z: Z.rpy(order='yxz'), 'rpy(deg)': lambda Z: Z.rpy(unit='deg'),
-                                                        'eul(deg)': lambda Z: Z.eul(unit='deg'), 'eul(flip)': lambda Z: Z.eul(flip=True), 'angvec(deg)': lambda Z: Z.angvec(unit='deg')})
-                if c in ('SO2', 'SE2'): methods.update({'theta': lambda Z: Z.theta(), 'theta(deg)': lambda Z: Z.theta(unit='deg')})
-                if c == 'SE2': methods['xyt'] = lambda Z: Z.xyt()
-                p = g.normal(size=2 if c in ('SO2', 'SE2') else 3)
-                methods['*point'] = lambda Z: Z * p
-            elif c in ('Quaternion', 'UnitQuaternion'):
-                methods = {'conj': lambda Z: Z.conj(), 'norm': lambda Z: Z.norm(), 's': lambda Z: Z.s, 'v': lambda Z: Z.v, 'vec': lambda Z: Z.vec, '**2': lambda Z: Z ** 2, '**-1': lambda Z: Z ** -1}
-                if c == 'UnitQuaternion':
-                    methods.update({'inv': lambda Z: Z.inv(), 'R': lambda Z: Z.R, 'rpy': lambda Z: Z.rpy(), 'eul': lambda Z: Z.eul(),
-                                    'rpy(xyz)': lambda Z: Z.rpy(order='xyz'), 'rpy(deg)': lambda Z: Z.rpy(unit='deg'), 'eul(deg)': lambda Z: Z.eul(unit='deg'), '*point': (lambda p_: lambda Z: Z * p_)(g.normal(size=3))})
-            else:
-                methods = {'inv': lambda Z: Z.inv(), 'exp': lambda Z: Z.exp(), 'S': lambda Z: Z.S}
-                if c == 'Twist3': methods.update({'v': lambda Z: Z.v, 'w': lambda Z: Z.w, 'pitch': lambda Z: Z.pitch(), 'theta': lambda Z: Z.theta(), 'se3': lambda Z: Z.se3()})
-                else: methods.update({'v': lambda Z: Z.v, 'w': lambda Z: Z.w, 'se2': lambda Z: Z.se2()})
-            for mn, f in methods.items():
-                L.count('per-value', key=(c, mn, m)); L.sample(f'per-value:{c}', dict(inp, method=mn))
-                try:
-                    want = [f(x) for x in xs]
-                except Exception:
-                    continue       # single-valued method itself fails (other properties)
-                try:
-                    res = f(X)
-                except Exception as e:
-                    L.fail(f'per-value-raises:{c}.{mn}:{"1" if m == 1 else "M"}', f'{c}.{mn} on an object holding {m} values raised {type(e).__name__}: {str(e)[:80]}', dict(inp, method=mn), observed=type(e).__name__)
-                    continue
-                if m == 1:
-                    continue
-                def flat(v):
-                    if isobj(v): return np.asarray(v.data[0], float).ravel()
-                    if isinstance(v, tuple): return np.concatenate([np.ravel(np.asarray(t_, float)) for t_ in v])
-                    return np.ravel(np.asarray(v, float))
-                W = [flat(w) for w in want]
-                if isobj(res): G = [np.asarray(a, float).ravel() for a in res.data]
-                elif isinstance(res, (list, tuple)) and len(res) == m: G = [flat(a) for a in res]
+            # the same object on both sides: still one result per value
+            if m > 1:
+                for opn, f in list(OPS.items()):
+                    if opn[0] not in supports[c] and opn not in supports[c]: continue
+                    X, xs = mkobj(c, m); inp = dict(cls=c, op=opn, m=m, same_object=True)
+                    L.count('binop-same-object', key=(c, opn, m)); L.sample(f'binop:{c}', inp)
+                    try: res = f(X, X); want = [f(x_, x_) for x_ in xs]
+                    except Exception: continue
+                    got = elems(res, m)
+                    if got is None or len(got) != m:
+                        L.fail(f'binop-length:{c}:{opn}', f'X {opn} X for one {c} object holding {m} values gave {repr(res)[:60]}; expected {m} results', inp, observed=repr(res)[:100]); continue
+                    for i in range(m):
+                        w = val(want[i]) if not isinstance(want[i], list) else want[i][0]
+                        gi = got[i]
+                        same = (gi == w) if isinstance(w, bool) or isinstance(gi, bool) else (np.shape(gi) == np.shape(w) and np.allclose(gi, w, rtol=1e-12, atol=1e-12))
+                        if not same: L.fail(f'binop-element:{c}:{opn}:MxM', f'X {opn} X for one {c} object holding {m} values: element {i} is not the single-valued result', inp); break
+            for int_first in (False, True):
+                if int_first and m == 1: continue
+                # power and unary / per-value methods on an m-valued object (second pass: the first value has integer entries / dtype)
+                X, xs = mkobj(c, m, int_first)
+                inp = dict(cls=c, m=m, first_value_integer=int_first)
+                methods = {}
+                if c in ('SO2', 'SE2', 'SO3', 'SE3'):
+                    methods = {'inv': lambda Z: Z.inv(), 'R': lambda Z: Z.R, 'det': lambda Z: Z.det(), '**2': lambda Z: Z ** 2, '**-1': lambda Z: Z ** -1,
+                               'log': lambda Z: Z.log(), 'norm': lambda Z: Z.norm(),
+                               'interp(0.3)': lambda Z: Z.interp(0.3), 'interp(0)': lambda Z: Z.interp(0), 'interp(1)': lambda Z: Z.interp(1), 'interp(0.0)': lambda Z: Z.interp(0.0)}
+                    if c in ('SE2', 'SE3'): methods['t'] = lambda Z: Z.t
+                    if c in ('SO3', 'SE3'): methods.update({'eul': lambda Z: Z.eul(), 'rpy': lambda Z: Z.rpy(), 'angvec': lambda Z: Z.angvec(),
+                                                            'rpy(xyz)': lambda Z: Z.rpy(order='xyz'), 'rpy(yxz)': lambda Z: Z.rpy(order='yxz'), 'rpy(deg)': lambda Z: Z.rpy(unit='deg'),
+                                                            'eul(deg)': lambda Z: Z.eul(unit='deg'), 'eul(flip)': lambda Z: Z.eul(flip=True), 'angvec(deg)': lambda Z: Z.angvec(unit='deg')})
+                    if c in ('SO2', 'SE2'): methods.update({'theta': lambda Z: Z.theta(), 'theta(deg)': lambda Z: Z.theta(unit='deg')})
+                    if c == 'SE2': methods['xyt'] = lambda Z: Z.xyt()
+                    p = g.normal(size=2 if c in ('SO2', 'SE2') else 3)
+                    methods['*point'] = lambda Z: Z * p
+                elif c in ('Quaternion', 'UnitQuaternion'):
+                    methods = {'conj': lambda Z: Z.conj(), 'norm': lambda Z: Z.norm(), 's': lambda Z: Z.s, 'v': lambda Z: Z.v, 'vec': lambda Z: Z.vec, '**2': lambda Z: Z ** 2, '**-1': lambda Z: Z ** -1}
+                    if c == 'UnitQuaternion':
+                        methods.update({'inv': lambda Z: Z.inv(), 'R': lambda Z: Z.R, 'rpy': lambda Z: Z.rpy(), 'eul': lambda Z: Z.eul(),
+                                        'rpy(xyz)': lambda Z: Z.rpy(order='xyz'), 'rpy(deg)': lambda Z: Z.rpy(unit='deg'), 'eul(deg)': lambda Z: Z.eul(unit='deg'), '*point': (lambda p_: lambda Z: Z * p_)(g.normal(size=3))})
                 else:
-                    A = np.asarray(res, float)
-                    G = None
-                    if A.ndim >= 1 and A.shape[0] == m: G = [A[i].ravel() for i in range(m)]
-                    if (G is None or any(gi.shape != wi.shape or not np.allclose(gi, wi, atol=1e-12) for gi, wi in zip(G, W))) and A.ndim >= 2 and A.shape[-1] == m:
-                        G2 = [A[..., i].ravel() for i in range(m)]
-                        if all(gi.shape == wi.shape and np.allclose(gi, wi, atol=1e-12) for gi, wi in zip(G2, W)): G = G2
-                if G is None or len(G) != m:
-                    L.fail(f'per-value-count:{c}.{mn}', f'{c}.{mn} on {m} values does not return {m} results', dict(inp, method=mn), observed=repr(res)[:120]); continue
-                for i in range(m):
-                    if G[i].shape != W[i].shape or not np.allclose(G[i], W[i], rtol=1e-12, atol=1e-12):
-                        L.fail(f'per-value-element:{c}.{mn}', f'{c}.{mn} on {m} values: result {i} differs from the method applied to element {i}', dict(inp, method=mn), observed=repr(G[i])[:100], required=repr(W[i])[:100])
-                        break
+                    methods = {'inv': lambda Z: Z.inv(), 'exp': lambda Z: Z.exp(), 'S': lambda Z: Z.S}
+                    if c == 'Twist3': methods.update({'v': lambda Z: Z.v, 'w': lambda Z: Z.w, 'pitch': lambda Z: Z.pitch(), 'theta': lambda Z: Z.theta(), 'se3': lambda Z: Z.se3()})
+                    else: methods.update({'v': lambda Z: Z.v, 'w': lambda Z: Z.w, 'se2': lambda Z: Z.se2()})
+                for mn, f in methods.items():
+                    L.count('per-value', key=(c, mn, m)); L.sample(f'per-value:{c}', dict(inp, method=mn))
+                    try:
+                        want = [f(x) for x in xs]
+                    except Exception:
+                        continue       # single-valued method itself fails (other properties)
+                    try:
+                        res = f(X)
+                    except Exception as e:
+                        L.fail(f'per-value-raises:{c}.{mn}:{"1" if m == 1 else "M"}', f'{c}.{mn} on an object holding {m} values raised {type(e).__name__}: {str(e)[:80]}', dict(inp, method=mn), observed=type(e).__name__)
+                        continue
+                    if m == 1:
+                        continue
+                    def flat(v):
+                        if isobj(v): return np.asarray(v.data[0], float).ravel()
+                        if isinstance(v, tuple): return np.concatenate([np.ravel(np.asarray(t_, float)) for t_ in v])
+                        return np.ravel(np.asarray(v, float))
+                    W = [flat(w) for w in want]
+                    if isobj(res): G = [np.asarray(a, float).ravel() for a in res.data]
+                    elif isinstance(res, (list, tuple)) and len(res) == m: G = [flat(a) for a in res]
+                    else:
+                        A = np.asarray(res, float)
+                        G = None
+                        if A.ndim >= 1 and A.shape[0] == m: G = [A[i].ravel() for i in range(m)]
+                        if (G is None or any(gi.shape != wi.shape or not np.allclose(gi, wi, atol=1e-12) for gi, wi in zip(G, W))) and A.ndim >= 2 and A.shape[-1] == m:
+                            G2 = [A[..., i].ravel() for i in range(m)]
+                            if all(gi.shape == wi.shape and np.allclose(gi, wi, atol=1e-12) for gi, wi in zip(G2, W)): G = G2
+                    if G is None or len(G) != m:
+                        L.fail(f'per-value-count:{c}.{mn}', f'{c}.{mn} on {m} values does not return {m} results', dict(inp, method=mn), observed=repr(res)[:120]); continue
+                    for i in range(m):
+                        if G[i].shape != W[i].shape or not np.allclose(G[i], W[i], rtol=1e-12, atol=1e-12):
+                            L.fail(f'per-value-element:{c}.{mn}', f'{c}.{mn} on {m} values: result {i} differs from the method applied to element {i}', dict(inp, method=mn), observed=repr(G[i])[:100], required=repr(W[i])[:100])
+                            break
     # == and != on sequences decide each pair exactly as the single-valued operator does — also for nearly equal values
     for c in CL:
         cls, one = CL[c]
